@@ -23,8 +23,10 @@ Driver for the summary aggregation model (state: program folders + the two summa
   batches <n>                        -> [5,5,2] [[0,1,2,3,4],[5,...],...]
   parse <name>                       -> <program> <simulation> <ts01><emis01><est01><rep01><kept01> | none ...
   ord <y> <m> <d>                    -> days since 1970-01-01
+  setrun <years> <kNum> <kDen>       next run of a history: new years / k, the folder state is kept   -> ok
+  initout                            `initialize_outputs`: the folder state is cleared (clearFolder)  -> ok
   wsim <prog> <sim> <tsRows> <emisRows> <estRows|-> <repRows|->   what (prog, sim) writes          -> ok
-  runall <progs> <n> <keep01> <sched>  replaces the state by `runAll` (the function the theorems are
+  runall <progs> <n> <keep01> <sched>  replaces the state by `runInFolder` from the current folder state (= `runAll`, the function the theorems are
                                      about) on the world given by the wsim lines; sched 0 = every scan
                                      in stored order, 1 = some scans reversed      -> ok | crash:empty-file
 -/
@@ -149,6 +151,11 @@ def step (s : DSt) (toks : List String) : DSt × String :=
     match natList? ys, int? kn, nat? kd with
     | some ys, some kn, some kd => ({ years := ys, k := (kn : Rat) / (kd : Rat) }, "ok")
     | _, _, _ => (s, "bad-op")
+  | ["setrun", ys, kn, kd] =>
+    match natList? ys, int? kn, nat? kd with
+    | some ys, some kn, some kd => ({ s with years := ys, k := (kn : Rat) / (kd : Rat), world := [] }, "ok")
+    | _, _, _ => (s, "bad-op")
+  | ["initout"] => ({ s with st := clearFolder s.st }, "ok")
   | ["wsim", p, sim, t, e, x, r] =>
     match nat? sim, content? "ts" t, content? "emis" e, optContent? "est" x, optContent? "rep" r with
     | some sim, some t, some e, some x, some r =>
@@ -159,7 +166,7 @@ def step (s : DSt) (toks : List String) : DSt × String :=
     | some ps, some n, some keep, some mode =>
       let W : Name → Nat → SimOut Content := fun p i =>
         (s.world.lookup (p, i)).getD { ts := .ts [], emis := .emis [], est := none, rep := none }
-      match runAllChecked (concreteStats s.years) W ps keep (drvSched mode) n with
+      match runInFolderChecked (concreteStats s.years) W ps keep (drvSched mode) n s.st with
       | some st => ({ s with st := st }, "ok")
       | none => (s, "crash:empty-file")
     | _, _, _, _ => (s, "bad-op")
